@@ -58,6 +58,18 @@ def case_st(draw):
             reqs.append({"path": draw(pathspell.hostile_paths()), "labels": ["hostile"], "kind": "hostile"})
         else:
             reqs.append({"path": "/" + draw(st.text(max_size=20)), "labels": ["random"], "kind": "random"})
+    # '<link>/../<sibling>': lexically the sibling next to the link, on disk whatever lies next to the link's target
+    links = [n_ for n_ in spec["nodes"] if n_["t"] == "link"]
+    for _ in range(draw(st.integers(0, 3)) if links else 0):
+        lk = draw(st.sampled_from(links))
+        parent = lk["p"].rsplit("/", 1)[0]
+        sibs = [n_["p"] for n_ in nodes if n_["p"].rsplit("/", 1)[0] == parent and n_["p"] != lk["p"]]
+        if not sibs:
+            continue
+        sib = draw(st.sampled_from(sibs))
+        segs = lk["p"].split("/")[1:] + [draw(st.sampled_from(["..", "..", "%2e%2e", "%2E%2E"])), sib.split("/")[-1]]
+        reqs.append({"path": "/" + "/".join(pathspell.rfc_encode(x) if not x.startswith("%2") and x != ".." else x for x in segs),
+                     "labels": ["link-dotdot", "dotdot"], "kind": "spell"})
     # phase 2: some inside entries are replaced by links to the outside, then the same spellings are requested again
     inside = [n["p"] for n in spec["nodes"] if n["t"] in ("file", "dir")]
     swaps = draw(st.lists(st.sampled_from(inside), max_size=2, unique=True)) if inside and draw(st.booleans()) else []
@@ -144,6 +156,21 @@ def run_tree(case: dict):
                     return viol("outside-content-revealed", f"path {rq['path']!r} -> status {status}, content of {outside[0]!r} (listing={case['listing']})",
                                 path=rq["path"])
                 if 20 <= status <= 29:
+                    # reference resolution of the requested path: decode once, then resolve as the operating system
+                    # does (a link is followed before a following '..' is applied)
+                    from urllib.parse import unquote as _unq
+
+                    dec = _unq(request.path)
+                    if "\x00" not in dec:
+                        root_real = os.path.realpath(os.path.join(S, root))
+                        try:
+                            real = os.path.realpath(os.path.join(root_real, dec.lstrip("/")))
+                        except (OSError, ValueError):
+                            real = None
+                        if real is not None and (not (real == root_real or real.startswith(root_real + "/")) or not os.path.lexists(real)):
+                            return viol("success-for-path-resolving-outside-or-to-nothing",
+                                        f"path {rq['path']!r} resolves to {real!r} ({'missing' if not os.path.lexists(real) else 'outside the root'}) "
+                                        f"but was answered {status} {meta[:40]!r}", path=rq["path"])
                     if body_s.startswith("# Index of"):
                         stats["listing"] += 1
                         names = sorted(set(re.findall(r"^=> \S+ (.*?)(?:/| \([^()]*\))$", body_s, re.M)))
